@@ -1282,3 +1282,92 @@ func cellOfLoad(v ssa.Value) *ssa.Alloc {
 	}
 	return nil
 }
+
+// ---------------------------------------------------------------------------
+// M9 window coverage of the fixed-base scalar multiplication
+
+func RuleM9(c *Ctx) {
+	c.Rule("M9", "window coverage: PrecompPoint.ScalarMul walks every window of the scalar — the limb loop runs l = 0..fr.Limbs-1 (a constant), the window loop w = 0..64/windowSize-1, the table is indexed by l*(64/windowSize)+w — so a carry out of any window is always consumed by the next one (the top window cannot carry out: rule K6); NewPrecompPoint builds 256/windowSize window tables")
+	fn := c.P.Fn("banderwagon", "PrecompPoint", "ScalarMul")
+	if fn == nil {
+		c.Unresolved("M9", "banderwagon.(*PrecompPoint).ScalarMul")
+		return
+	}
+	c.Saw(core.FnName(fn))
+	limbs := c.constOf("bandersnatch/fr", "Limbs")
+	cls := countedLoops(fn)
+	var outer, inner *countedLoop
+	for _, cl := range cls {
+		for _, cl2 := range cls {
+			if cl != cl2 && cl.loop.Blocks[cl2.loop.Header] {
+				outer, inner = cl, cl2
+			}
+		}
+	}
+	ok := outer != nil && inner != nil
+	var why []string
+	if !ok {
+		why = append(why, fmt.Sprintf("the nested limb/window loops are not recognised (%d counted loops)", len(cls)))
+	} else {
+		z1, k1 := core.ConstInt(outer.init)
+		b1, kb := core.ConstInt(outer.bound)
+		if !k1 || z1 != 0 || !kb || b1 != limbs || outer.step != 1 || outer.op != token.LSS {
+			ok = false
+			why = append(why, fmt.Sprintf("the limb loop does not run l = 0 .. fr.Limbs-1 = %d (bound %s): windows of the upper limbs, and a carry into them, can be skipped", limbs-1, core.PathOf(outer.bound)))
+		}
+		z2, k2 := core.ConstInt(inner.init)
+		nw, isQ := core.StripConv(inner.bound).(*ssa.BinOp)
+		okNW := isQ && nw.Op == token.QUO
+		if okNW {
+			n64, is64 := core.ConstInt(nw.X)
+			okNW = is64 && n64 == 64 && strings.HasSuffix(core.PathOf(nw.Y), "pp.windowSize)")
+		}
+		if !k2 || z2 != 0 || inner.step != 1 || inner.op != token.LSS || !okNW {
+			ok = false
+			why = append(why, "the window loop does not run w = 0 .. 64/windowSize-1")
+		}
+		// table index
+		idxOK := false
+		core.AllInstrs(fn, func(i ssa.Instruction) {
+			ia, isIA := i.(*ssa.IndexAddr)
+			if !isIA || !strings.HasSuffix(core.PathOf(ia.X), "pp.windows)") {
+				return
+			}
+			add, isAdd := core.StripConv(ia.Index).(*ssa.BinOp)
+			if !isAdd || add.Op != token.ADD {
+				idxOK = false
+				return
+			}
+			mul, isMul := add.X.(*ssa.BinOp)
+			if isMul && mul.Op == token.MUL && mul.X == ssa.Value(outer.phi) && core.SameExpr(mul.Y, inner.bound) && add.Y == ssa.Value(inner.phi) {
+				idxOK = true
+			}
+		})
+		if !idxOK {
+			ok = false
+			why = append(why, "the window table is not indexed by l*(64/windowSize)+w")
+		}
+	}
+	c.Check(ok, "M9", "PrecompPoint.ScalarMul:all-windows", fn.Pos(), strings.Join(why, "; "), fmt.Sprintf("l = 0..%d, w = 0..64/windowSize-1, table[l*(64/windowSize)+w]", limbs-1))
+	// table count in NewPrecompPoint
+	if np := c.P.Fn("banderwagon", "", "NewPrecompPoint"); np != nil {
+		c.Saw(core.FnName(np))
+		n := 0
+		good := 0
+		core.AllInstrs(np, func(i ssa.Instruction) {
+			ms, isMS := i.(*ssa.MakeSlice)
+			if !isMS || !strings.Contains(ms.Type().String(), "[][]") {
+				return
+			}
+			n++
+			if q, isQ := core.StripConv(ms.Len).(*ssa.BinOp); isQ && q.Op == token.QUO {
+				if k, isK := core.ConstInt(q.X); isK && k == 64*limbs && paramBehind(q.Y) != nil && paramBehind(q.Y).Name() == "windowSize" {
+					good++
+				}
+			}
+		})
+		c.Check(n >= 1 && good == n, "M9", "NewPrecompPoint:256/windowSize-tables", np.Pos(), "the number of window tables is not 256/windowSize", fmt.Sprintf("%d table slices of length %d/windowSize", n, 64*limbs))
+	} else {
+		c.Unresolved("M9", "banderwagon.NewPrecompPoint")
+	}
+}
